@@ -115,6 +115,8 @@ def stratified(vectors: List[Dict[str, Any]], cap: int, seed: int, key: Callable
 
 def default_key(v: Dict[str, Any]) -> str:
     e = v.get("expect", {})
+    if v.get("kind") == "rows":
+        return "%s|%s|%s|%s|%s" % (v["backend"], v["mode"], json.dumps(v["schema"], sort_keys=True), e.get("kind"), sorted(v.get("devs") or []))
     if v.get("kind") == "model":
         return "%s|%s" % (v.get("backend"), " ".join("%s%s" % (o[0][0], o[1]) for o in v["hist"]))
     if not isinstance(e, dict):
